@@ -42,7 +42,13 @@ func execUnionExprUnion(context *exprContext, expr *grammar.Grammar) error {
 		return fmt.Errorf("cannot union non-NodeSet's")
 	}
 
-	context.result = unionCleanup(append(leftNodeSet, rightNodeSet...))
+	// The operands may be owned by the caller (variables, results of earlier
+	// queries): sort a fresh slice instead of appending to and sorting theirs.
+	union := make(NodeSet, 0, len(leftNodeSet)+len(rightNodeSet))
+	union = append(union, leftNodeSet...)
+	union = append(union, rightNodeSet...)
+
+	context.result = unionCleanup(union)
 	return nil
 }
 
